@@ -32,5 +32,5 @@ HARNESSES += [HH(x, tiers=('thorough',)) for x in seqs('abswBR', 4, minlen=4) if
 ASSUMPTIONS = ['memory-order lemmas: the C11 order is read from the IR instruction executed on the path that performs the hand-off; consume/dependency ordering counts as acquire (as this build defines it); the hardware memory model is outside the claim',
                'dispatch_once: the release publication of DONE is asserted in the C09 harness; no acquire is asserted for _dispatch_once_wait (the code documents none on this platform)',
                'thread-event wait: futex returns arbitrarily (spurious wake-ups), at most 3 sleeps']
-LEVEL_TEXT = 'placeholder'
-LEVEL_NOTE = 'placeholder'
+LEVEL_TEXT = '(a) Never returns early: the SYNC-RETURN assertion of the shared history harness over all sequences containing a synchronous submission (serial, concurrent, chained). (b) Visibility: for every hand-off edge named in the property the atomic instruction that performs it on the executed path carries the documented C11 order (acquire on lock acquisition and on the waiter side, release on unlock / wakeup / MPSC tail exchange / thread-event signal / group leave / semaphore signal), decided from arbitrary states by symbolic execution of the real unit; the thread-event waiter leaves only when really signalled (spurious wake-ups injected).'
+LEVEL_NOTE = "The C11 order is read from clang's IR; the hardware memory model and non-SC executions are outside; dispatch_once acquire side is not asserted (the code documents none on this platform; release publication is asserted in C09)."
